@@ -25,6 +25,7 @@ func propC09(c *Ctx) propInfo {
 	c.floor("E12.generator-determinism", 5)
 	c.floor("E12.generator-id-format", 3)
 	c.floor("E6.generator-templates", 20)
+	c.generatorIsolation("tl/parser", "tlb/parser", "abi/parser", "utils")
 	return propInfo{
 		explanation: "Static structural clauses of C09 (DESIGN.md §4 C09): (1) determinism - every range over a map in the schema compilers either only accumulates into another map / set, selects an element by key equality, feeds text/template (which iterates in key order) or collects into a slice that is sorted before use; none emits output in map order; (2) every place where the TL compiler formats a 32-bit constructor id into generated source pads it to 8 hex digits (the run-time tag codec requires exactly 4 bytes); (3) the integer / bits / VarUInteger templates of the TL-B compiler, instantiated by the checker with placeholder values and parsed as Go, satisfy the same width / primitive / JSON-parser rules as the checked-in generated file (E6). The general statement 'for all schemas the generated code implements the schema' is a property of a program's output over all inputs and is NOT decided; see DESIGN.md.",
 		assumptions: []string{"text/template iterates maps in sorted key order (documented)"},
@@ -365,4 +366,56 @@ func (c *Ctx) templateRules(rule string, file *ast.File, pos token.Pos) {
 		}
 		c.check(okv, rule, key, pos, "template emits "+want, fmt.Sprintf("the generator template for %s.%s does not emit %s (calls found: %v): regenerating tlb/integers.go would produce a codec that breaks the declared width / signedness", id.Name, fd.Name.Name, want, calls))
 	}
+}
+
+// generatorIsolation: two runs of a generator in one process give the same output only if no
+// run can modify state another run reads. Package-level maps/slices of defaults must not be
+// aliased into a generator object (stored into a field, returned, captured) - they are copied - and
+// are not updated outside init.
+func (c *Ctx) generatorIsolation(rels ...string) {
+	const R = "E12.generator-isolation"
+	isAggregate := func(t types.Type) bool {
+		switch t.Underlying().(type) {
+		case *types.Map, *types.Slice:
+			return true
+		}
+		return false
+	}
+	n := 0
+	for _, f := range c.moduleFuncs(rels...) {
+		allInstrs(f, func(_ *ssa.BasicBlock, in ssa.Instruction) {
+			switch x := in.(type) {
+			case *ssa.Store:
+				// field/element <- *global   (aliasing a package-level aggregate into an object)
+				if ld, ok := x.Val.(*ssa.UnOp); ok && ld.Op == token.MUL {
+					if g, ok := ld.X.(*ssa.Global); ok && isAggregate(ld.Type()) && g.Pkg != nil && strings.HasPrefix(g.Pkg.Pkg.Path(), modPath) {
+						if _, isField := x.Addr.(*ssa.FieldAddr); isField {
+							n++
+							c.bad(R, fnName(f)+" aliases package-level "+g.Name()+" into an object", x.Pos(), fmt.Sprintf("%s stores the package-level %s itself into a field: updates made through one generator (options that add or override entries) change what every later generator starts from, so generating the same schema twice in one process gives different code; copy it (maps.Clone)", fnName(f), g.Name()))
+						}
+					}
+				}
+			case *ssa.MapUpdate:
+				// direct update of a package-level map outside init
+				if ld, ok := x.Map.(*ssa.UnOp); ok && ld.Op == token.MUL {
+					if g, ok := ld.X.(*ssa.Global); ok && f.Name() != "init" && !strings.HasPrefix(f.Name(), "init#") && g.Pkg != nil && strings.HasPrefix(g.Pkg.Pkg.Path(), modPath) {
+						n++
+						c.bad(R, fnName(f)+" updates package-level "+g.Name(), x.Pos(), fmt.Sprintf("%s writes the package-level map %s at run time: generator runs in one process are no longer independent", fnName(f), g.Name()))
+					}
+				}
+			case *ssa.Call:
+				// the defaults are copied where a generator is created
+				if q := callQName(&x.Call); strings.HasSuffix(q, "maps.Clone") || strings.Contains(q, "maps.Clone[") {
+					if ld, ok := x.Call.Args[0].(*ssa.UnOp); ok {
+						if g, ok := ld.X.(*ssa.Global); ok {
+							n++
+							c.ok(R, fnName(f)+" copies package-level "+g.Name(), x.Pos(), "maps.Clone of the defaults: the generator owns its table")
+						}
+					}
+				}
+			}
+		})
+	}
+	c.floor(R, 1)
+	_ = n
 }
